@@ -1285,6 +1285,9 @@ func (p *Prog) termLifted(fn *ssa.Function, t *Term, depth int, pred func(f *ssa
 		if isTestScaffold(cs.Caller) || cs.Instr.Common().IsInvoke() {
 			continue
 		}
+		if guardLiftScope != nil && !guardLiftScope[origin(cs.Caller)] {
+			continue
+		}
 		n++
 		cfi := p.Info(cs.Caller)
 		m := map[string]*Term{}
